@@ -105,6 +105,7 @@ type fakeClient struct {
 	live     map[uint16]bool // vBuckets whose stream was requested successfully and not closed since
 	// closeNotFound: CloseStream of a vBucket without a live stream is answered "no such stream", as a node does
 	closeNotFound bool
+	closing       map[uint16]bool // vBuckets for which a close request has arrived (reset by a successful OpenStream)
 }
 
 func newFakeClient(numVb int) *fakeClient {
@@ -189,6 +190,7 @@ func (f *fakeClient) OpenStream(vb uint16, coll map[uint32]string, off *models.O
 			f.live = map[uint16]bool{}
 		}
 		f.live[vb] = true
+		delete(f.closing, vb)
 		// what client.go's OpenStream callback does on success
 		o.SetVbUUID(f.failoverOf(vb)[0].VbUUID)
 		f.opens[len(f.opens)-1].UUID = uint64(f.failoverOf(vb)[0].VbUUID)
@@ -220,6 +222,10 @@ func (f *fakeClient) CloseStream(vb uint16) error {
 	f.closes = append(f.closes, vb)
 	wasLive := f.live[vb]
 	delete(f.live, vb)
+	if f.closing == nil {
+		f.closing = map[uint16]bool{}
+	}
+	f.closing[vb] = true
 	if f.closeNotFound && !wasLive {
 		// what a node answers to DCP_CLOSE_STREAM for a vBucket that has no stream (any more): KEY_ENOENT
 		f.mu.Unlock()
@@ -231,7 +237,7 @@ func (f *fakeClient) CloseStream(vb uint16) error {
 	if onClose != nil {
 		onClose(vb)
 	}
-	if end && o != nil {
+	if end && o != nil && wasLive {
 		o.End(models.DcpStreamEnd{VbID: vb}, gocbcore.ErrDCPStreamClosed)
 	}
 	return nil
@@ -277,6 +283,21 @@ func (f *fakeClient) serverEnd(vb uint16, cause error) {
 	if o != nil {
 		o.End(models.DcpStreamEnd{VbID: vb}, cause)
 	}
+}
+
+// serverEndUnlessClosing: like serverEnd, but only if the node has not yet received a close request for the vBucket
+// (a node handles the two in one order or the other: after the close request there is no stream left to end)
+func (f *fakeClient) serverEndUnlessClosing(vb uint16, cause error) bool {
+	f.mu.Lock()
+	o := f.obs[vb]
+	if o == nil || f.closing[vb] || !f.live[vb] {
+		f.mu.Unlock()
+		return false
+	}
+	delete(f.live, vb)
+	f.mu.Unlock()
+	o.End(models.DcpStreamEnd{VbID: vb}, cause)
+	return true
 }
 
 // liveRange: the vBuckets streamed right now, as "lo-hi" when contiguous (else the list)
